@@ -337,7 +337,7 @@ func runDLInBubble(c dlCase, prop string) (out kit.Outcome) {
 			o := kit.Viol(c.Strategy+":stale-limit", "%s: strategy enforces %d, the algorithm's estimate is %d (floored at 1: %d)", when, got, est(), want)
 			return &o
 		}
-		if v, ok := b.reg.gauge("limit", ""); !ok || int(v) != want {
+		if v, ok := b.reg.gauge(core.MetricLimit, ""); !ok || int(v) != want {
 			o := kit.Viol(c.Strategy+":limit-gauge", "%s: limit gauge reports %v (registered=%v), enforced limit should be %d", when, v, ok, want)
 			return &o
 		}
@@ -348,7 +348,7 @@ func runDLInBubble(c dlCase, prop string) (out kit.Outcome) {
 					o := kit.Viol(c.Strategy+":stale-share", "%s: partition %q share is %d, want max(1,ceil(%d*%v))=%d", when, n, got, want, stackBinFracs[n], w)
 					return &o
 				}
-				if v, ok := b.reg.gauge("limit.partition", "partition:"+n); !ok || int(v) != w {
+				if v, ok := b.reg.gauge(core.MetricPartitionLimit, partTag(n)); !ok || int(v) != w {
 					o := kit.Viol(c.Strategy+":share-gauge", "%s: limit.partition gauge of %q reports %v (registered=%v), want %d", when, n, v, ok, w)
 					return &o
 				}
